@@ -3,6 +3,9 @@ import RbV.Ref.Gotoh
 import RbV.Basic.AlignCodec
 import RbV.Lemmas.AlignRev
 import RbV.Model.PairwiseCustom
+import RbV.Model.PairwiseFill
+import RbV.Lemmas.FillFinal
+import RbV.Lemmas.FillAccept
 import RbV.Thm.GenLimits
 import RbV.Thm.GenTbCodes
 /-!
@@ -80,7 +83,8 @@ proved below as `custom_score_eq_opt_partial` / `best_prefix_suffix_symmetry`; (
 j, `S[j%2][i]`, `I[j%2][i]`, `D[j%2][i]` are the optima over alignments of sub-ranges ending at (i, j) in the
 respective layer, with prefix clips charged, and `Sn[i]`, `S[·][m]` the best suffix-clipped continuations; (3) the
 traceback follows cells whose recorded predecessor attains the cell's value, so the emitted operations recompute to
-`score`.  Steps (2) and (3) are open. -/
+`score`.  Steps (2) and (3) are proved for the functional mirror `Model/PairwiseFill.lean` (`fill_score_eq_opt`,
+`custom_model_accepted`, next section). -/
 
 /-- **Proved fragment (step 1 of `custom_score_eq_opt`)**: the score of an operation list is invariant under
 reversing both sequences and the list — a run of k insertions/deletions costs `go + k·ge` from either end — so the
@@ -99,6 +103,137 @@ theorem score_splits (sc : Sc) (ops1 : List Op) (st : St) (x1 y1 : List Nat) (v1
     (h : score sc st x1 y1 ops1 = some v1) (x2 y2 : List Nat) (ops2 : List Op) :
     score sc st (x1 ++ x2) (y1 ++ y2) (ops1 ++ ops2) = (score sc (lastSt st ops1) x2 y2 ops2).map (· + v1) :=
   score_append sc ops1 st x1 y1 v1 h x2 y2 ops2
+
+/-! ### [C] The matrix fill of `Aligner::custom` computes the optimum (`RbV/Model/PairwiseFill.lean`)
+
+`Model.PairwiseFill.fill` is a *functional* mirror of the fill of `Aligner::custom` (column 0, one column step per symbol
+of `y` with the `i = 0` block, the rolling `S/I/D` columns, the x-suffix-clip register `S[curr][m]`, `Sn`, the `j = n`
+handling, the two loops over the last column), statement by statement, same comparisons and strictness.  The driver
+evaluates it on every call next to the implementation (tags `fill-model=impl` / `drift-fill-score`, and
+`fill-model=imp-model` against the imperative model) and evaluates the hypotheses below (`fill-thm-hyp`).
+
+Step (2) of the plan above is the theorem `fill_score_eq_opt`: for **all** sequences, substitution functions, gap and
+clip penalties `≤ 0` (`MIN_SCORE` or anything else) inside the `Sane` envelope, the score left in `S[n % 2][m]` is the
+optimum of the documented model.  No size bound; proof by the column invariant (induction over `j`, inside a column over
+`i`), split into
+* soundness (`RbV/Lemmas/FillWit.lean`, `FillSound.lean`): every cell is *junk* (`≤ MIN_SCORE + (i+j)·W`) or
+  *witnessed* by a real alignment of sub-ranges ending at the cell — or, in the last row / column, before it with the
+  suffix clip charged —, whose value (prefix clips and charged suffix clips included) is at least the cell
+  (`≥`, not `=`: a path through a clip re-opens a gap that the alignment merely extends, and the code charges a
+  zero-length y-suffix clip in column `n`);
+* completeness (`FillComplete.lean`, `FillFinal.lean`): every cell dominates every alignment ending there, `Sn[i]`
+  every y-suffix-clipped one, and the first post-loop makes `S[n%2][m]` dominate all of them (as recorded for the
+  equivalent mutants m2/m12, neither the second post-loop, nor the x-suffix register of the inner columns, nor the
+  "delete y[0..j]" half of `xclip_score`, nor `yclip_score` are needed for this direction);
+* `Sane`: junk cannot be the final score, because the score dominates the all-gaps global alignment.
+Step (3), the traceback, is `custom_model_accepted` below.  What stays open: the equality of the functional with the
+imperative model and with the implementation (sampled by the driver on every call, not proved), and `i32`. -/
+
+/-- **The DP of `Aligner::custom` computes the optimum.**  `W` is any bound on the substitution scores that occur;
+`Sane` makes `MIN_SCORE` act as minus infinity (`MIN_SCORE + (m+n)·W < 2·gap_open + (m+n)·gap_extend`). -/
+theorem fill_score_eq_opt (sc : Sc) (cl : Clip) (x y : List Nat) (W : Int)
+    (hgo : sc.go ≤ 0) (hge : sc.ge ≤ 0) (hcl : cl.xp ≤ 0 ∧ cl.xs ≤ 0 ∧ cl.yp ≤ 0 ∧ cl.ys ≤ 0)
+    (hsane : Model.PairwiseFill.Sane sc x y W) :
+    (Model.PairwiseFill.fill sc cl x y).score = opt sc cl x y := by
+  obtain ⟨hW, hw, hs⟩ := hsane
+  refine Model.PairwiseFill.fill_score_eq_opt_aux
+    ⟨hgo, hge, hcl.1, hcl.2.1, hcl.2.2.1, hcl.2.2.2, hW, fun i j hi hj => hw _ ?_ _ ?_⟩ hs
+  · rw [List.getD_eq_getElem?_getD, List.getElem?_eq_getElem hi]; exact List.getElem_mem hi
+  · rw [List.getD_eq_getElem?_getD, List.getElem?_eq_getElem hj]; exact List.getElem_mem hj
+
+/-- … hence it is `Optimal`: attained by an alignment of a sub-range pair, exceeded by none -/
+theorem fill_score_optimal (sc : Sc) (cl : Clip) (x y : List Nat) (W : Int)
+    (hgo : sc.go ≤ 0) (hge : sc.ge ≤ 0) (hcl : cl.xp ≤ 0 ∧ cl.xs ≤ 0 ∧ cl.yp ≤ 0 ∧ cl.ys ≤ 0)
+    (hsane : Model.PairwiseFill.Sane sc x y W) :
+    Optimal sc cl x y (Model.PairwiseFill.fill sc cl x y).score := by
+  rw [fill_score_eq_opt sc cl x y W hgo hge hcl hsane]; exact opt_optimal sc cl x y
+
+/-- the three standard modes are `custom` with `MIN_SCORE` / 0 clip penalties: global … -/
+theorem fill_score_eq_opt_global (sc : Sc) (x y : List Nat) (W : Int) (hgo : sc.go ≤ 0) (hge : sc.ge ≤ 0)
+    (hsane : Model.PairwiseFill.Sane sc x y W) :
+    (Model.PairwiseFill.fill sc ⟨minScore, minScore, minScore, minScore⟩ x y).score =
+      opt sc ⟨minScore, minScore, minScore, minScore⟩ x y := by
+  have h : minScore < 0 := GenLimits.min_score_range.2
+  exact fill_score_eq_opt sc _ x y W hgo hge ⟨by dsimp only; omega, by dsimp only; omega, by dsimp only; omega, by dsimp only; omega⟩ hsane
+
+/-- … semiglobal (x global, y local) … -/
+theorem fill_score_eq_opt_semiglobal (sc : Sc) (x y : List Nat) (W : Int) (hgo : sc.go ≤ 0) (hge : sc.ge ≤ 0)
+    (hsane : Model.PairwiseFill.Sane sc x y W) :
+    (Model.PairwiseFill.fill sc ⟨minScore, minScore, 0, 0⟩ x y).score = opt sc ⟨minScore, minScore, 0, 0⟩ x y := by
+  have h : minScore < 0 := GenLimits.min_score_range.2
+  exact fill_score_eq_opt sc _ x y W hgo hge ⟨by dsimp only; omega, by dsimp only; omega, by dsimp only; omega, by dsimp only; omega⟩ hsane
+
+/-- … and local -/
+theorem fill_score_eq_opt_local (sc : Sc) (x y : List Nat) (W : Int) (hgo : sc.go ≤ 0) (hge : sc.ge ≤ 0)
+    (hsane : Model.PairwiseFill.Sane sc x y W) :
+    (Model.PairwiseFill.fill sc ⟨0, 0, 0, 0⟩ x y).score = opt sc ⟨0, 0, 0, 0⟩ x y :=
+  fill_score_eq_opt sc _ x y W hgo hge ⟨Int.le_refl 0, Int.le_refl 0, Int.le_refl 0, Int.le_refl 0⟩ hsane
+
+/-- completeness half, without `Sane` (here `MIN_SCORE` may be any integer): the fill never misses an alignment -/
+theorem fill_score_ge_every_alignment (sc : Sc) (cl : Clip) (x y : List Nat) (hge : sc.ge ≤ 0) (hxs : cl.xs ≤ 0)
+    (a : Aln) (v : Int) (ha : IsAln x y a) (hv : AlnScore sc cl x y a v) :
+    v ≤ (Model.PairwiseFill.fill sc cl x y).score := by
+  obtain ⟨h1, h2, h3, h4, _⟩ := ha
+  obtain ⟨c, hc, rfl⟩ := hv
+  exact Model.PairwiseFill.score_complete hge hxs a.xs a.xe a.ys a.ye a.ops c h1 h2 h3 h4 hc
+
+/-! #### The traceback: the whole function is accepted
+
+`Model.PairwiseFill.custom` adds to the fill the traceback cells (S/I/D fields written under the conditions of the Rust
+text), `Lx`, `Ly`, the rewriting of the last column by the two post-loops, and the traceback `loop` (with fuel
+`2(m+n)+16`).  The driver compares its whole `Alignment` with the implementation's on every call (`fill-path=impl` /
+`drift-fill-path`).  `custom_model_accepted` is the full statement `custom_score_eq_opt` of the plan above, for this
+functional mirror: the loop terminates inside its fuel, and the reported alignment passes `accept` — by
+`C01_accept_iff`: it is a real alignment of the reported sub-ranges, obeys the clip representation rule, its recomputed
+score (clip penalties included) **equals** the reported score, and the reported score is optimal.
+
+Proof (`RbV/Lemmas/FillWitAt.lean` … `FillAccept.lean`): `Good T i j c v` — started at `(i, j)` with `last_layer = c`
+the loop stops after `≤ i + j` iterations and what it pushed is an alignment of value `≥ v`, with the four coordinate
+registers and the clip lengths right; one lemma per arm of the `match`; the fill writes, next to every value, a code
+that is good for it (columns `j < n`: induction over `j`, `i`; column `n`: the rows through both post-loops, then the
+registers `S[curr][m]` / S field of `traceback[m][n]` / `Lx[n]`).  The path's value is `≥` the reported score and
+`≤` the optimum, which the score equals by `fill_score_eq_opt` — hence equality.  That no cell holds junk (so that no
+code is the untouched default and no gap is "extended" out of a sentinel) is `RbV/Lemmas/FillLower.lean`. -/
+
+/-- **The functional mirror of the whole of `Aligner::custom` is accepted** (same hypotheses as `fill_score_eq_opt`) -/
+theorem custom_model_accepted (sc : Sc) (cl : Clip) (x y : List Nat) (W : Int)
+    (hgo : sc.go ≤ 0) (hge : sc.ge ≤ 0) (hcl : cl.xp ≤ 0 ∧ cl.xs ≤ 0 ∧ cl.yp ≤ 0 ∧ cl.ys ≤ 0)
+    (hsane : Model.PairwiseFill.Sane sc x y W) :
+    ∃ o, Model.PairwiseFill.custom sc cl x y = some o ∧ accept sc cl false x y o = true := by
+  obtain ⟨hW, hw, hs⟩ := hsane
+  refine Model.PairwiseFill.custom_accept_aux
+    ⟨hgo, hge, hcl.1, hcl.2.1, hcl.2.2.1, hcl.2.2.2, hW, fun i j hi hj => hw _ ?_ _ ?_⟩ hs
+  · rw [List.getD_eq_getElem?_getD, List.getElem?_eq_getElem hi]; exact List.getElem_mem hi
+  · rw [List.getD_eq_getElem?_getD, List.getElem?_eq_getElem hj]; exact List.getElem_mem hj
+
+/-- spelled out with `C01_accept_iff`: the model's output has the three properties of C01 -/
+theorem custom_model_correct (sc : Sc) (cl : Clip) (x y : List Nat) (W : Int)
+    (hgo : sc.go ≤ 0) (hge : sc.ge ≤ 0) (hcl : cl.xp ≤ 0 ∧ cl.xs ≤ 0 ∧ cl.yp ≤ 0 ∧ cl.ys ≤ 0)
+    (hsane : Model.PairwiseFill.Sane sc x y W) :
+    ∃ o, Model.PairwiseFill.custom sc cl x y = some o ∧ IsAln x y o.toAln ∧ ClipRule false x y o ∧
+      AlnScore sc cl x y o.toAln o.score ∧ Optimal sc cl x y o.score := by
+  obtain ⟨o, ho, ha⟩ := custom_model_accepted sc cl x y W hgo hge hcl hsane
+  exact ⟨o, ho, (C01_accept_iff sc cl false x y o).mp ha⟩
+
+-- non-vacuity: the model's whole output on the module-doc call, and the theorem instantiated on it
+example : Model.PairwiseFill.custom scU' ⟨-1, -2, minScore, minScore⟩ [0, 1, 1, 0] [1, 1] =
+    some ⟨-1, 1, 3, 0, 2, 4, 2, [.xclip 1, .core .mat, .core .mat, .xclip 1]⟩ := by decide +kernel
+example : ∃ o, Model.PairwiseFill.custom scU' ⟨-1, -2, minScore, minScore⟩ [0, 1, 1, 0] [1, 1] = some o ∧
+    accept scU' ⟨-1, -2, minScore, minScore⟩ false [0, 1, 1, 0] [1, 1] o = true :=
+  custom_model_accepted scU' ⟨-1, -2, minScore, minScore⟩ [0, 1, 1, 0] [1, 1] 1 (by decide) (by decide) (by decide)
+    (by decide)
+
+-- non-vacuity: the hypotheses hold (`decide`) for the module-doc style call (x prefix clip −1, x suffix clip −2, y clips
+-- `MIN_SCORE`), W = 1, and the theorem then gives the concrete equation; the value is −1
+example : (Model.PairwiseFill.fill scU' ⟨-1, -2, minScore, minScore⟩ [0, 1, 1, 0] [1, 1]).score =
+    opt scU' ⟨-1, -2, minScore, minScore⟩ [0, 1, 1, 0] [1, 1] :=
+  fill_score_eq_opt scU' ⟨-1, -2, minScore, minScore⟩ [0, 1, 1, 0] [1, 1] 1 (by decide) (by decide) (by decide) (by decide)
+example : (Model.PairwiseFill.fill scU' ⟨-1, -2, minScore, minScore⟩ [0, 1, 1, 0] [1, 1]).score = -1 := by decide +kernel
+example : Model.PairwiseFill.thmHyp scU' ⟨minScore, minScore, minScore, minScore⟩ [0, 1, 0] [0, 0] = true := by decide +kernel
+example : (Model.PairwiseFill.fill scU' ⟨minScore, minScore, minScore, minScore⟩ [0, 1, 0] [0, 0]).score = -4 := by
+  decide +kernel
+-- `Sane` is a real restriction: sequences so long that the worst global alignment falls below `MIN_SCORE` are outside
+example : ¬ Model.PairwiseFill.Sane ⟨fun _ _ => 0, minScore, 0⟩ [0] [0] 0 := by decide +kernel
 
 /-! ### Source-extracted obligations (DESIGN §8): `MIN_SCORE` and the traceback-cell constants of `pairwise/mod.rs`
 
